@@ -56,7 +56,9 @@ def _case(draw, tier):
     return {"spec": spec, "combo": combo, "t0": t0, "t1": t1, "dt": dt, "dt_min": dt_min,
             "rtol": tol * draw(st.sampled_from([0.1, 1.0, 10.0])), "atol": tol,
             "outs": draw(st.lists(st.floats(0.02, 0.98), min_size=0, max_size=3)),
-            "entropy": draw(st.integers(0, 2 ** 31 - 2))}
+            "entropy": draw(st.integers(0, 2 ** 31 - 2)),
+            # dt, dt_min, rtol, atol are typed Scalar = Union[float, Tensor]: optionally they are passed as 0-dim tensors
+            "scalars_as_tensors": draw(st.sampled_from([False, False, False, True]))}
 
 
 @st.composite
@@ -135,8 +137,14 @@ def run_case(case):
     try:
         with brownian_tools.patched(adaptive_stepping, "compute_error", ce), \
                 brownian_tools.patched(adaptive_stepping, "update_step_size", up), torch.no_grad():
-            ys = torchsde.sdeint(sde, y0, ts, bm=rec, method=combo["method"], dt=dt, adaptive=True, rtol=rtol,
-                                 atol=atol, dt_min=dt_min, options=dict(combo["options"]) or None)
+            given = [dt, rtol, atol, dt_min]
+            if case.get("scalars_as_tensors"):
+                given = [torch.tensor(x, dtype=torch.float64) for x in given]
+            ys = torchsde.sdeint(sde, y0, ts, bm=rec, method=combo["method"], dt=given[0], adaptive=True, rtol=given[1],
+                                 atol=given[2], dt_min=given[3], options=dict(combo["options"]) or None)
+            if [float(x) for x in given] != [dt, rtol, atol, dt_min]:
+                return fail("caller_scalar_modified", f"dt/rtol/atol/dt_min passed as 0-dim tensors came back as "
+                                                      f"{[float(x) for x in given]} instead of {[dt, rtol, atol, dt_min]}")
     except WorkBudgetExceeded as e:
         return fail("nontermination:trial_budget", f"{e} (bound from dt_min={dt_min}, span={span})")
     except AssertionError as e:
@@ -284,7 +292,7 @@ def run_case(case):
     checks += 1
     if not bool(torch.isfinite(ys).all()):
         return fail("non_finite_output", "adaptive solve returned non-finite values")
-    labels = [solve.combo_label(combo)]
+    labels = [solve.combo_label(combo)] + (["scalars_as_0dim_tensors"] if case.get("scalars_as_tensors") else [])
     for flag, nm in ((n_rej > 0, "has_rejection"), (n_clamp > 0, "hit_dt_min"), (n_rej >= 5, "rejections>=5"),
                      (max_streak >= 8, "consecutive_rejections>=8")):
         if flag:
